@@ -197,8 +197,16 @@ class StandInClient(object):
         return r.d
 
     def _get_coordinator_for_group(self, group_id):
+        from afkak.common import BrokerMetadata
         self.rec.note_group(group_id)
-        return self._new("lookup", [O_LOOKUP])
+        d = self._new("lookup", [O_LOOKUP])
+        if self.rec.sync_policy is not None and self.rec.sync_policy("lookup"):
+            # cached coordinator: KafkaClient returns an already-fired Deferred.  Equivalent event for the model: ELookup rid ok,
+            # delivered right after the event that issued the lookup
+            r = self.rec.reqs[-1]
+            self.rec.auto_events.append((E_LOOKUP, r.rid, 0))
+            d.callback(BrokerMetadata(1, "h", 9092))
+        return d
 
     def load_metadata_for_topics(self, *topics):
         self.rec.note_topics(topics)
@@ -289,6 +297,12 @@ def make_stub_consumer(rec):
             if self._shutdown_d:
                 return defer.fail(Failure(RestopError("Shutdown called more than once.")))
             self._shutdown_d = d = defer.Deferred()
+            if rec.sync_policy is not None and rec.sync_policy("shutdown"):
+                # an idle consumer with nothing to commit: shutdown() completes before it returns (model: ECShut cid ok right after)
+                rec.auto_events.append((E_CSHUT, self.cid, 0))
+                self._shutdown_d = None
+                self._finish()
+                d.callback(0)
             return d
 
         def stop(self):
@@ -388,6 +402,8 @@ class Impl(object):
         self.problems = []         # things outside the canonical alphabet (reported, never silently dropped)
         self.nstart = 0
         self.nstop = 0
+        self.sync_policy = None    # driver: callable(kind) -> bool: does this lookup / consumer shutdown complete synchronously?
+        self.auto_events = []      # the equivalent events of such completions, in order of occurrence
         self.ctor_raise_at, self.ctor_count = None, 0
         self.sync_start_failures = []   # driver: failure kinds (or None) for the next consumers' start() calls - outside the model's alphabet
         self.sync_failed = []
@@ -1450,3 +1466,129 @@ def replay_history(rp, monitor):
             bad = list(bad) + [(len(evs) - 1, "C17_bounded_rejoin (honest coordinator, fair schedule): " + v)]
     print("monitor:", bad or "no failure", "| problems:", problems or "none")
     return 1 if (bad or problems) else 0
+
+
+# ------------------------------------------------------------------ synchronous completions (production path), own stream
+def gen_sync_history(rnd):
+    """As gen_history, but coordinator lookups (cached coordinator) and consumer shutdowns (idle consumer) may complete inside the call
+    that issues them.  Returns (kind, groups, salt): groups = [(event, [equivalent events of the synchronous completions it caused])]."""
+    prof = Profile(rnd)
+    prof.junk = 0.0
+    p_lookup, p_shut = rnd.choice([0.5, 1.0]), rnd.choice([0.3, 0.7, 1.0])
+    logging.getLogger("afkak").setLevel(logging.CRITICAL + 1)
+    salt = rnd.randrange(9 * 5 * 7)
+    im = Impl(prof.kind, salt=salt)
+    im.sync_policy = lambda what: rnd.random() < (p_lookup if what == "lookup" else p_shut)
+    groups, steps = [], []
+    generation, last_asg, next_member, started = rnd.randint(0, 3), [], rnd.randint(1, 4), False
+    try:
+        for _ in range(prof.length):
+            cands = [("req", rid, k) for rid, k in im.pending_requests()]
+            cands += [("fire", t) for t in im.active_join_timers()]
+            if im.heartbeat_armed():
+                cands.append(("tick",))
+            for c in im.consumers:
+                if c.shutdown_pending():
+                    cands.append(("cshut", c.cid))
+                elif c.can_fail_start() and prof.cfail and rnd.random() < prof.cfail:
+                    cands.append(("cfail", c.cid))
+            if not started:
+                cands = [("start",)]
+            elif rnd.random() < prof.stop_rate:
+                cands.append(("stop",))
+            if not cands:
+                break
+            ch = rnd.choice(cands)
+            fail = rnd.random() < prof.fault
+            fr = (100 + gen_kind(rnd, prof)) if fail else 0
+            if ch[0] == "req":
+                rid, kind = ch[1], ch[2]
+                if kind == "lookup":
+                    ev = (E_LOOKUP, rid, fr if fail else 0)
+                elif kind == "meta":
+                    ev = (E_META, rid, fr)
+                elif kind == "join":
+                    generation += 1
+                    sent = im.trace_member_of(rid)
+                    member = sent if sent else next_member
+                    next_member += 0 if sent else 1
+                    ev = (E_JOIN, rid, fr, generation, member, 1 if rnd.random() < prof.leader else 0)
+                elif kind == "parts":
+                    ev = (E_PARTS, rid, fr)
+                elif kind == "sync":
+                    last_asg = gen_assignment(rnd, last_asg)
+                    ev = (E_SYNC, rid, fr, list(last_asg))
+                elif kind == "hb":
+                    ev = (E_HBREPLY, rid, fr)
+                else:
+                    ev = (E_LEAVE, rid, fr)
+            elif ch[0] == "fire":
+                ev = (E_FIRE, ch[1])
+            elif ch[0] == "tick":
+                ev = (E_TICK,)
+            elif ch[0] == "cshut":
+                ev = (E_CSHUT, ch[1], 0)
+            elif ch[0] == "cfail":
+                ev = (E_CFAIL, ch[1], gen_kind(rnd, prof))
+            elif ch[0] == "start":
+                ev, started = (E_START,), True
+            else:
+                ev = (E_STOP,)
+            im.auto_events = []
+            out = im.apply(ev)
+            groups.append((ev, list(im.auto_events)))
+            steps.append((sorted(tuple(o) for o in split_trace(out)[0]), im.obs()))
+        return prof.kind, groups, salt, steps, im.problems
+    finally:
+        im.close()
+
+
+def run_sync_stream(ck, n, model="group"):
+    """Correspondence for histories with synchronous completions: the model runs the issuing event followed by the equivalent events;
+    per issuing event the MULTISET of outputs of that group of model steps and the observation vector after it must equal what the
+    implementation did inside the one call (the position of ApiResult / StopDeferred inside the call is the only thing that moves)."""
+    rnd = random.Random(ck.seed + 1717)
+    cases, expect, nsync = [], [], 0
+    for _ in range(n):
+        kind, groups, salt, steps, problems = gen_sync_history(rnd)
+        evs = []
+        sizes = []
+        for ev, autos in groups:
+            evs.append(ev)
+            evs.extend(autos)
+            sizes.append(1 + len(autos))
+            nsync += len(autos)
+        cases.append(encode_case(kind, evs))
+        expect.append((kind, groups, sizes, steps, problems, salt))
+    mtr = ck.model(model, cases)
+    mobs = ck.model(model, [[2 + c[0]] + c[1:] for c in cases])
+    ndiff = 0
+    for i, (kind, groups, sizes, steps, problems, salt) in enumerate(expect):
+        msteps = split_trace(mtr[i])
+        mo = observable_part(mobs[i])
+        per = [mo[j * (OBS_LEN + 1) + 1:(j + 1) * (OBS_LEN + 1)] for j in range(len(msteps))]
+        pos, bad = 0, list(problems)
+        for (ev, autos), size, (iout, iobs) in zip(groups, sizes, steps):
+            merged = sorted(tuple(o) for st in msteps[pos:pos + size] for o in st)
+            pos += size
+            if merged != iout:
+                bad.append("outputs of %s (+%d synchronous completions): implementation %r, model %r" % (pretty_event(ev), len(autos), iout, merged))
+                break
+            if per[pos - 1] != list(iobs):
+                bad.append("observation after %s: implementation %r, model %r" % (pretty_event(ev), list(iobs), per[pos - 1]))
+                break
+        if bad:
+            ndiff += 1
+            if ndiff <= 2:
+                ck.violation({"kind": "correspondence broken", "correspondence": "corr:group:synchronous-completions", "what": bad[:2],
+                              "case_kind": kind, "events": [e for g in groups for e in [g[0]] + g[1]], "groups": [[list(map(str, g[0])), len(g[1])] for g in groups],
+                              "salt": salt, "replay_op": "history"}, no_input=True)
+    st = ck.cov["correspondence"].setdefault("histories with synchronously completing coordinator lookups (cached coordinator) and consumer shutdowns (idle consumer): "
+                                             "per call, multiset of outputs and observation vector vs the model run of the call followed by the equivalent events",
+                                             {"cases": 0, "differences": 0, "in_coq_sample": 0})
+    st["cases"] += n
+    st["differences"] += ndiff
+    ck.cov["evaluations"] += n
+    ck.cov["synchronous_completions_exercised"] = nsync
+    ck.hist("origin:synchronous-completions", n)
+    return ndiff
